@@ -342,6 +342,7 @@ const (
 	pkList
 	pkMid
 	pkMarker
+	pkSet
 )
 
 type c16Ref struct {
@@ -373,6 +374,9 @@ type c16Part struct {
 	pos   int          // pkSym, pkList
 	act   *c16Act      // pkMid; pkList: body action (may be nil)
 	mark  string
+	opt   bool     // pkSym written `Xopt`: the auto-instantiated optional nonterminal of X
+	set   []string // pkSet: `set(A | B)`
+	probe bool     // the actions that see this part always look at it (by number, alias and name)
 }
 
 type c16Rule struct {
@@ -388,6 +392,27 @@ type c16Gram struct {
 	termType map[string]string // Go value type of every terminal (string, int, *TV)
 	ntType   []string          // Go value type of every nonterminal
 	flag     bool              // declares a template parameter: the compiler runs the instantiation pass
+	optOff   bool              // aliasIncludesOptSuffix = false: the default name of `Xopt` is `X` (an exact `X` wins)
+}
+
+// c16Trim is the name table an action sees: with aliasIncludesOptSuffix = false names lose their `opt` suffix,
+// and a symbol that is literally called like the trimmed name keeps it.
+func c16Trim(names map[string][]int, optOff bool) map[string][]int {
+	out := map[string][]int{}
+	if optOff {
+		for k, v := range names {
+			if len(k) > 3 && strings.HasSuffix(k, "opt") {
+				out[strings.TrimSuffix(k, "opt")] = append([]int(nil), v...)
+			}
+		}
+	}
+	for k, v := range names {
+		if optOff && len(k) > 3 && strings.HasSuffix(k, "opt") {
+			continue
+		}
+		out[k] = append([]int(nil), v...)
+	}
+	return out
 }
 
 var c16Types = []string{"string", "int", "*TV"}
@@ -484,6 +509,55 @@ func (gn *c16Gen) seq(cur, depth, n int, lead string) []*c16Part {
 			continue
 		}
 		k := r.Intn(20)
+		if depth == 0 && r.Intn(6) == 0 {
+			switch r.Intn(3) {
+			case 0:
+				// the SAME list expression several times in one rule (and, with the fixed element L, in other rules at
+				// other positions): the compiler extracts one nonterminal and reuses it
+				occ := 2 + r.Intn(3)
+				for o := 0; o < occ; o++ {
+					lp := &c16Part{kind: pkList, plus: r.Intn(4) != 0, probe: true,
+						alts: [][]*c16Part{{{kind: pkSym, sym: "L", nt: -1}}}}
+					if r.Intn(2) == 0 {
+						gn.alias++
+						lp.alias = fmt.Sprintf("l%d", gn.alias)
+					}
+					out = append(out, lp, gn.symPart(cur, ""))
+				}
+			case 1:
+				// X and its auto-instantiated optional Xopt in one rule, both referenced by name
+				x := gn.symPart(cur, "")
+				x.alias = ""
+				x.probe = true
+				xo := &c16Part{kind: pkSym, sym: x.sym, nt: x.nt, opt: true, probe: true}
+				switch r.Intn(4) {
+				case 0:
+					out = append(out, xo) // alone
+				case 1:
+					out = append(out, xo, gn.symPart(cur, ""), x)
+				case 2:
+					out = append(out, x, xo)
+				default:
+					out = append(out, x, gn.symPart(cur, ""), xo)
+				}
+			default:
+				// the same set expression twice
+				// (members of different declared types: a set of equally typed terminals is itself typed, and since
+				// rules without action do not forward values its `$alias` is the zero value, not nil)
+				a, b := gn.term(), gn.term()
+				if a != b && gn.g.termType[a] != gn.g.termType[b] {
+					for o := 0; o < 2; o++ {
+						sp := &c16Part{kind: pkSet, set: []string{a, b}, probe: true}
+						if r.Intn(2) == 0 {
+							gn.alias++
+							sp.alias = fmt.Sprintf("s%d", gn.alias)
+						}
+						out = append(out, sp, gn.symPart(cur, ""))
+					}
+				}
+			}
+			continue
+		}
 		switch {
 		case k < 8 || depth >= 2 && k < 15:
 			out = append(out, gn.symPart(cur, ""))
@@ -564,8 +638,9 @@ func c16GenGram(r *rand.Rand) *c16Gram {
 	g.terms = inner[:4+r.Intn(5)]
 	g.nts = make([][]*c16Rule, nt)
 	g.flag = r.Intn(2) == 0
+	g.optOff = r.Intn(2) == 0
 	g.termType = map[string]string{}
-	for _, t := range append(append(append([]string{}, inner...), leads...), "COMMA") {
+	for _, t := range append(append(append([]string{}, inner...), leads...), "COMMA", "L") {
 		g.termType[t] = c16Types[r.Intn(len(c16Types))]
 	}
 	for i := 0; i < nt; i++ {
@@ -619,9 +694,10 @@ func c16GenGram(r *rand.Rand) *c16Gram {
 // ---- the documented scoping: positions and visible names (harness's own reading of the semantics)
 
 type c16Sc struct {
-	names map[string][]int
-	top   *c16Sc
-	ctr   *int
+	names  map[string][]int
+	top    *c16Sc
+	ctr    *int
+	optOff bool
 }
 
 func (s *c16Sc) topNames() map[string][]int {
@@ -658,7 +734,7 @@ func (s *c16Sc) push(name string, pos ...int) {
 func c16CollectPos(parts []*c16Part, out *[]int) {
 	for _, p := range parts {
 		switch p.kind {
-		case pkSym, pkList:
+		case pkSym, pkList, pkSet:
 			*out = append(*out, p.pos)
 		case pkOpt, pkChoice:
 			for _, a := range p.alts {
@@ -682,7 +758,17 @@ func c16WalkSeq(parts []*c16Part, sc *c16Sc) {
 		case pkSym:
 			p.pos = *sc.ctr
 			*sc.ctr++
-			sc.push(p.sym, p.pos)
+			if p.opt {
+				sc.push(p.sym+"opt", p.pos)
+			} else {
+				sc.push(p.sym, p.pos)
+			}
+			if p.alias != "" {
+				sc.push(p.alias, p.pos)
+			}
+		case pkSet:
+			p.pos = *sc.ctr
+			*sc.ctr++
 			if p.alias != "" {
 				sc.push(p.alias, p.pos)
 			}
@@ -696,7 +782,7 @@ func c16WalkSeq(parts []*c16Part, sc *c16Sc) {
 				top = sc
 			}
 			for _, a := range p.alts {
-				sub := &c16Sc{names: map[string][]int{}, top: top, ctr: sc.ctr}
+				sub := &c16Sc{names: map[string][]int{}, top: top, ctr: sc.ctr, optOff: sc.optOff}
 				c16WalkSeq(a, sub)
 				if sc.top != nil {
 					for k, v := range sub.names {
@@ -715,11 +801,11 @@ func c16WalkSeq(parts []*c16Part, sc *c16Sc) {
 			}
 		case pkList:
 			ctr := 1
-			body := &c16Sc{names: map[string][]int{}, ctr: &ctr}
+			body := &c16Sc{names: map[string][]int{}, ctr: &ctr, optOff: sc.optOff}
 			c16WalkSeq(p.alts[0], body)
 			if p.act != nil {
 				p.act.maxPos = ctr
-				p.act.visible = copyNames(body.names)
+				p.act.visible = c16Trim(body.names, sc.optOff)
 			}
 			p.pos = *sc.ctr
 			*sc.ctr++
@@ -728,17 +814,17 @@ func c16WalkSeq(parts []*c16Part, sc *c16Sc) {
 			}
 		case pkMid:
 			p.act.maxPos = *sc.ctr
-			p.act.visible = copyNames(sc.names)
+			p.act.visible = c16Trim(sc.names, sc.optOff)
 		}
 	}
 }
 
 func c16Scope(g *c16Gram, rule *c16Rule) {
 	ctr := 1
-	sc := &c16Sc{names: map[string][]int{}, ctr: &ctr}
+	sc := &c16Sc{names: map[string][]int{}, ctr: &ctr, optOff: g.optOff}
 	c16WalkSeq(rule.parts, sc)
 	rule.end.maxPos = ctr
-	rule.end.visible = copyNames(sc.names)
+	rule.end.visible = c16Trim(sc.names, g.optOff)
 }
 
 // maxActive: the largest number of positions of ps that can be present in one expansion of the rule
@@ -746,7 +832,7 @@ func c16MaxActive(parts []*c16Part, ps map[int]bool) int {
 	n := 0
 	for _, p := range parts {
 		switch p.kind {
-		case pkSym, pkList:
+		case pkSym, pkList, pkSet:
 			if ps[p.pos] {
 				n++
 			}
@@ -824,6 +910,21 @@ func c16PickRefsFor(r *rand.Rand, a *c16Act, scopeParts []*c16Part, firstOK bool
 		}
 		if c16MaxActive(scopeParts, ps) <= 1 && r.Intn(4) != 0 {
 			a.refs = append(a.refs, c16Ref{id: nm, prop: 'v'})
+		}
+	}
+	// repeated lists / sets, X next to Xopt: every occurrence by number, by alias and by name
+	extra := 0
+	for _, p := range scopeParts {
+		if !p.probe || p.pos == 0 || p.pos >= a.maxPos || extra >= 10 {
+			continue
+		}
+		a.refs = append(a.refs, c16Ref{id: fmt.Sprint(p.pos - 1), prop: "oe"[r.Intn(2)]})
+		extra++
+		for _, nm := range names {
+			if ps := a.visible[nm]; len(ps) == 1 && ps[0] == p.pos {
+				a.refs = append(a.refs, c16Ref{id: nm, prop: 'v'}, c16Ref{id: nm, prop: "oe"[r.Intn(2)]})
+				extra += 2
+			}
 		}
 	}
 	// next to an inline list: the VALUES at the positions that also exist inside the list element (the element has
@@ -915,7 +1016,13 @@ func c16RenderSeq(parts []*c16Part) string {
 		}
 		switch p.kind {
 		case pkSym:
-			out = append(out, p.sym+al)
+			if p.opt {
+				out = append(out, p.sym+"opt"+al)
+			} else {
+				out = append(out, p.sym+al)
+			}
+		case pkSet:
+			out = append(out, "set("+strings.Join(p.set, " | ")+")"+al)
 		case pkOpt:
 			if p.group {
 				out = append(out, "("+c16RenderSeq(p.alts[0])+")"+al+"?")
@@ -956,8 +1063,11 @@ func (g *c16Gram) TM(name string, optimize bool) string {
 	if optimize {
 		sb.WriteString("optimizeTables = true\n")
 	}
+	if g.optOff {
+		sb.WriteString("aliasIncludesOptSuffix = false\n")
+	}
 	sb.WriteString("\n::lexer\n\nWhiteSpace: /[ ]+/ (space)\n")
-	for _, t := range append(append([]string{}, g.terms...), "COMMA") {
+	for _, t := range append(append([]string{}, g.terms...), "COMMA", "L") {
 		re := strings.ToLower(t)
 		if t == "COMMA" {
 			re = ","
@@ -1005,6 +1115,7 @@ type c16Child struct {
 	part   *c16Part   // kind 2, 3
 	iters  []*c16Inst // kind 2
 	sepTok []int      // kind 2: separator token before iteration k>0
+	inner  *c16Child  // kind 4 (Xopt): the X inside, nil when absent
 	pos    int
 	e      c16Entry
 }
@@ -1026,14 +1137,29 @@ func (d *c16Deriv) seq(parts []*c16Part, in *c16Inst) {
 		switch p.kind {
 		case pkSym:
 			ch := &c16Child{pos: p.pos, tok: len(d.toks)}
-			if p.nt >= 0 {
+			present := !p.opt || d.r.Intn(2) == 0
+			if present && p.nt >= 0 {
 				ch.kind = 1
 				alts := d.g.nts[p.nt]
 				ch.rule = alts[d.r.Intn(len(alts))]
 				ch.sub = d.inst(ch.rule.parts)
-			} else {
+			} else if present {
 				d.toks = append(d.toks, p.sym)
 			}
+			if p.opt {
+				// the nonterminal Xopt: one stack entry (value nil) around X or around nothing
+				outer := &c16Child{kind: 4, pos: p.pos, tok: ch.tok}
+				if present {
+					ch.pos = 0
+					outer.inner = ch
+				}
+				ch = outer
+			}
+			in.children = append(in.children, ch)
+			in.byPos[p.pos] = ch
+		case pkSet:
+			ch := &c16Child{kind: 5, pos: p.pos, tok: len(d.toks)}
+			d.toks = append(d.toks, p.set[d.r.Intn(len(p.set))])
 			in.children = append(in.children, ch)
 			in.byPos[p.pos] = ch
 		case pkOpt:
@@ -1190,6 +1316,16 @@ func (ev *c16Eval) inst(in *c16Inst, pre []c16Entry) (entries []c16Entry, byPos 
 				list.off, list.end = ev.tokOff[ch.tok], ev.tokOff[ch.tok]
 			}
 			e = list
+		case 4:
+			// Xopt: `Xopt: X | %empty` has no action, its value stays nil; it spans X or is empty at the next token
+			e = c16Entry{"<nil>", ev.tokOff[ch.tok], ev.tokOff[ch.tok]}
+			if ch.inner != nil {
+				ie, _ := ev.inst(&c16Inst{children: []*c16Child{ch.inner}}, nil)
+				e.off, e.end = ie[0].off, ie[0].end
+			}
+		case 5:
+			// set(A | B): the extracted nonterminal has no action either
+			e = c16Entry{"<nil>", ev.tokOff[ch.tok], ev.tokEnd[ch.tok]}
 		case 3:
 			o := ev.tokOff[ch.tok]
 			id := ev.fire(ch.part.act, entries, byPos, c16Entry{"", o, o})
@@ -1576,7 +1712,7 @@ func c16Text(r *rand.Rand, toks []string) (text string, off, end []int) {
 }
 
 func c16(c *Ctx) {
-	c.Rule = "(1) unit: random action strings ($$, $N, $name, ${id.prop}, self[N], left()/leftRaw()/first()/last(), malformed forms, numbers around MaxPos, overflowing and signed numbers) over random ActionVars (injective Remap with gaps for symbols without position, absent positions, multi-position aliases, typed and untyped positions, mid-rule environments) through the real gen.goParserAction vs the Lean mirror, and random byte strings through gen.parseMeta; (2) every rule of randomly generated grammars compiled by the real compiler: leaves of the expanded rule expression vs real RHS / Remap / SymRefCount / extracted mid-rule nonterminals; the hypotheses of the theorems (distinct positions, commands see only earlier positions) are checked on these; (3) end to end: grammars (half of them declaring a %flag, so that the template instantiation pass runs) whose terminals and 2-4 nonterminals carry DIFFERENT Go value types (string, int, *TV; lexer actions and rule actions produce recognisable values of the declared type, printed with their dynamic type), whose rules mix symbols, aliases, X?, (…)?, nested choices with aliases spanning alternatives (also aliased choices of differently typed single symbols whose VALUE is read), values read at the positions that also exist inside an inline list element, lists (+,*, separator, with body actions), mid-rule actions (also inside alternatives) and state markers; every action logs fmt.Sprintf of 2-5 references ($N, $name, offsets, first()/last()/left(), self[N]) plus the real parser stack; generated by the real generator, built in one batch; sentences derived from the SOURCE grammar with random spacing; the logged values and the returned start value are compared with the source-level prediction (no Remap involved) and, per executed action, the real stack + real ActionVars go to the Lean evaluator; non-trivial = action instance with an absent reference, a mid-rule/list-body action or a multi-position alias; distinct by (grammar, action, values)"
+	c.Rule = "(1) unit: random action strings ($$, $N, $name, ${id.prop}, self[N], left()/leftRaw()/first()/last(), malformed forms, numbers around MaxPos, overflowing and signed numbers) over random ActionVars (injective Remap with gaps for symbols without position, absent positions, multi-position aliases, typed and untyped positions, mid-rule environments) through the real gen.goParserAction vs the Lean mirror, and random byte strings through gen.parseMeta; (2) every rule of randomly generated grammars compiled by the real compiler: leaves of the expanded rule expression vs real RHS / Remap / SymRefCount / extracted mid-rule nonterminals; the hypotheses of the theorems (distinct positions, commands see only earlier positions) are checked on these; (3) end to end: grammars (half of them declaring a %flag, so that the template instantiation pass runs) whose terminals and 2-4 nonterminals carry DIFFERENT Go value types (string, int, *TV; lexer actions and rule actions produce recognisable values of the declared type, printed with their dynamic type), whose rules mix symbols, aliases, X?, (…)?, nested choices with aliases spanning alternatives (also aliased choices of differently typed single symbols whose VALUE is read), values read at the positions that also exist inside an inline list element, the SAME list expression (L+ / L*) 2-4 times in one rule and in several rules at different positions and the same set(...) twice (every occurrence referenced by number, alias and offsets), a symbol X together with its auto-instantiated Xopt (either order, or Xopt alone) referenced by name with aliasIncludesOptSuffix on and off, lists (+,*, separator, with body actions), mid-rule actions (also inside alternatives) and state markers; every action logs fmt.Sprintf of 2-5 references ($N, $name, offsets, first()/last()/left(), self[N]) plus the real parser stack; generated by the real generator, built in one batch; sentences derived from the SOURCE grammar with random spacing; the logged values and the returned start value are compared with the source-level prediction (no Remap involved) and, per executed action, the real stack + real ActionVars go to the Lean evaluator; non-trivial = action instance with an absent reference, a mid-rule/list-body action or a multi-position alias; distinct by (grammar, action, values)"
 	c16Unit(c)
 
 	nG := c.N(12, 120)
